@@ -411,31 +411,55 @@ func cmdCheck(args []string) int {
 						j.fr.mu.Unlock()
 						decided := false
 						if len(paths) > 0 {
+							// the paths are independent queries: run several at a time
+							type pres struct {
+								r    SolverResult
+								all  []SolverResult
+								lits []Term
+							}
+							resCh := make(chan pres, len(paths))
+							psem := make(chan struct{}, 6)
+							pctx, pcancel := context.WithCancel(context.Background())
+							for pi_, pinfo := range paths {
+								pi_, pinfo := pi_, pinfo
+								go func() {
+									psem <- struct{}{}
+									defer func() { <-psem }()
+									if pctx.Err() != nil {
+										resCh <- pres{r: SolverResult{Status: "cancelled"}}
+										return
+									}
+									j.fr.mu.Lock()
+									pq := j.fr.vc.pathQuery(ob, pinfo)
+									j.fr.mu.Unlock()
+									if dumpRe != nil && dumpRe.MatchString(ob.Name) {
+										os.WriteFile(filepath.Join("smtdump", sanitize(ob.Name)+fmt.Sprintf(".path%d.smt2", pi_)), []byte(pq+"(check-sat)\n"), 0o644)
+									}
+									pr, pall := solve(pq, j.fr.vc.inputs, to, false)
+									resCh <- pres{pr, pall, pinfo.lits}
+								}()
+							}
 							allUnsat := true
 							tsum := 0.0
-							for _, pi := range paths {
-								j.fr.mu.Lock()
-								pq := j.fr.vc.pathQuery(ob, pi)
-								j.fr.mu.Unlock()
-								lits := pi.lits
-								if dumpRe != nil && dumpRe.MatchString(ob.Name) {
-									os.WriteFile(filepath.Join("smtdump", sanitize(ob.Name)+fmt.Sprintf(".path%d.smt2", len(all))), []byte(pq+"(check-sat)\n"), 0o644)
+							for range paths {
+								pr := <-resCh
+								if pr.r.Status == "cancelled" {
+									continue
 								}
-								pr, pall := solve(pq, j.fr.vc.inputs, to, false)
-								tsum += pr.Time
-								all = append(all, pall...)
-								if pr.Status == "sat" {
-									r, decided, allUnsat = pr, true, false
-									break
-								}
-								if pr.Status != "unsat" {
-									allUnsat = false
-									if os.Getenv("GOVC_DEBUG") != "" {
-										fmt.Fprintf(os.Stderr, "path-split %s: %d paths, path failed (%s): %v\n", ob.Name, len(paths), pr.Status, lits)
+								tsum += pr.r.Time
+								all = append(all, pr.all...)
+								if pr.r.Status == "sat" && !decided {
+									r, decided, allUnsat = pr.r, true, false
+									pcancel()
+								} else if pr.r.Status != "unsat" {
+									if allUnsat && os.Getenv("GOVC_DEBUG") != "" {
+										fmt.Fprintf(os.Stderr, "path-split %s: %d paths, path failed (%s): %v\n", ob.Name, len(paths), pr.r.Status, pr.lits)
 									}
-									break
+									allUnsat = false
+									pcancel()
 								}
 							}
+							pcancel()
 							if allUnsat {
 								r = SolverResult{Status: "unsat", Solver: fmt.Sprintf("z3-new(path-split x%d)", len(paths)), Time: tsum}
 								decided = true
